@@ -34,6 +34,9 @@ CLAIMED = {
  "C07": ("fault_enumeration",
    "The probe start jitter is a simulator input and is enumerated (quick: 8-point grid incl. both ends; thorough: all 250 values) across seeded registration worlds and 6 profiles; strict profile demands probes exactly at register+jitter, +250, +500 and announcements at +750, +1750 per interface and family, with the authority section and host-name question checked; latency/stall profiles check the same as inequalities.",
    "7.7", "Enumeration is complete over the jitter dimension only; world shapes are sampled. Stall-induced short probing and the self-conflict livelock are known findings."),
+ "C08": ("fault_enumeration",
+   "Two or three real daemons on one loss-free simulated link claim the same instance (or host) name with different data; the start offset of the second runs over a 30-point grid from simultaneous to 5 s (all probe-step boundaries +-1 ms) and each daemon's probe jitter over a 6-point grid; afterwards a peer asks every question type for every generation of the names and the services are withdrawn. A second family injects a scripted conflict (SRV / TXT / both / host address) at 11 instants of the probing window, in 1-3 rounds, on names with existing '(N)' / '-N' suffixes up to u32::MAX, escaped dots, non-ASCII and 58-63-byte labels. A third family sends a competing probe whose authority records vary the daemon's own in 20 ways and lets a reference RFC 6762 8.2 comparison decide who defers. Oracle: everybody announced, no contested name has two holders, exactly one keeps the original; NameChange events; new names 'x (2)' / 'h-2' counting up, still encodable, probed three times before use; no later packet (answers, additionals, goodbyes) carries a lost name; the loser of a comparison waits exactly one second, the winner's schedule is unchanged.",
+   "7.8", "The grids are enumerated completely in the thorough tier; quick samples them. Names with '.' or '\\' inside the label are a known finding (conflicts on them are never detected)."),
  "C09": ("exploration",
    "Seeded search over register / re-register / unregister (exact, other case, unknown, twice, at 5-5000 ms after register) / shutdown histories on 1-3 interfaces; status replies, goodbye content per interface and family (TTL 0, names, addresses of that link), absence where never announced, byte-identical repeat at +120 ms, and silence afterwards are read from the wire.",
    "7.9", "'Announced on an interface' is read from the wire; services renamed by a conflict are judged by C08, not here."),
